@@ -273,6 +273,12 @@ fn config_a(rng: &mut ChaCha8Rng) -> CircuitConfig {
         }
         _ => {}
     }
+    // routed-wire counts that are not multiples of the quotient factor: the last partial-product
+    // chunk is then a short one
+    if rng.gen_bool(0.5) {
+        c.num_routed_wires = [37usize, 50, 61, 75, 100, 123][rng.gen_range(0..6)];
+        c.num_wires = c.num_wires.max(c.num_routed_wires + 20);
+    }
     c
 }
 
@@ -447,6 +453,10 @@ fn config_b(rng: &mut ChaCha8Rng, qdf: usize) -> CircuitConfig {
     }
     if rng.gen_bool(0.3) {
         c.fri_config.cap_height = rng.gen_range(0..3);
+    }
+    if rng.gen_bool(0.5) {
+        c.num_routed_wires = [37usize, 50, 61, 75, 100, 123][rng.gen_range(0..6)];
+        c.num_wires = c.num_wires.max(c.num_routed_wires + 20);
     }
     c
 }
